@@ -1,5 +1,7 @@
-// Force-included into every instrumented translation unit (-include):
-// library assertions become simulator verdicts instead of abort().
+// Force-included into every instrumented translation unit (-include).
+// Debug configurations: library assertions become simulator verdicts instead of abort().
+// NDEBUG configurations: assertions compile to nothing, exactly as in the shipped build
+// (an expression with side effects inside UNIFEX_ASSERT must disappear there too).
 #pragma once
 #ifdef __cplusplus
 extern "C" void usim_assert_fail(const char* expr, const char* file, int line);
@@ -7,5 +9,9 @@ extern "C" void usim_assert_fail(const char* expr, const char* file, int line);
 void usim_assert_fail(const char* expr, const char* file, int line);
 #endif
 #ifndef UNIFEX_ASSERT
+#ifdef NDEBUG
+#define UNIFEX_ASSERT(x) ((void)0)
+#else
 #define UNIFEX_ASSERT(x) ((x) ? (void)0 : usim_assert_fail(#x, __FILE__, __LINE__))
+#endif
 #endif
